@@ -77,10 +77,14 @@ def handle (args : List String) (impl : String) : R Ans :=
       match field impl "edges", field impl "valid", field impl "maxpath", field impl "mpseq", field impl "wseq" with
       | some e, some v, some m, some ms, some ws => do
         let ie ← parseAllEdges e
+        let il ← match field impl "links" with
+          | some l => if l == "-" then pure [] else (l.splitOn ",").mapM fun t => if t == "none" then pure none else do pure (some (← parseEdge t))
+          | none => throw "malformed-answer"
         let iv ← if v == "-" then pure [] else (v.splitOn ",").mapM fun h => do pure (⟨← hex h⟩ : Exts)
         let im ← parsePath m
         let ims ← digits ms; let iws ← digits ws
         pure (if ¬ edgesSound g ie then "FAIL:edge-without-K-1-overlap/arrival-side/flip"
+              else if il.length ≠ probes.length ∨ ¬ (probes.zip il).all (fun (p, a) => linkExact g p.1 p.2 a) then "FAIL:link-lookup-not-exact"
               else if ¬ validExtsExact g valid iv then "FAIL:extension-pruning-not-exact"
               else if ¬ walkValid ie im then "FAIL:best-path-steps-off-the-reported-edges"
               else if ¬ (im.map (·.1)).Nodup then "FAIL:best-path-repeats-a-node"
